@@ -83,6 +83,12 @@ def main():
     prop = PROPS[pid]
     t0 = time.time()
     os.makedirs(REPLAY_DIR, exist_ok=True)
+    if not a.replay:
+        for f in glob.glob(os.path.join(REPLAY_DIR, "%s-*.json" % pid)):
+            try:
+                os.remove(f)
+            except OSError:
+                pass
     os.makedirs(os.path.join(C.VERIF, "evidence"), exist_ok=True)
     ev = {"property_id": pid, "tier": tier, "seed": seed, "level": prop["level"],
           "coverage": {"checker_cmd": "make -C coq theories/Properties/%s.vo && coqc pins/%s.v (coqc 8.16.1; Print Assumptions per theorem)" % (pid, pid),
